@@ -6,6 +6,6 @@ props=${@:-all}
 cd /verif
 git -C /repo apply /verif/refactors/$id/patch.diff || exit 2
 for p in $props; do
-  ./check.sh $p quick 2>&1 | grep -E "\[(VIOLATION|undecided)\]|^VIOLATION|floor|unresolved" | cut -c1-${CUT:-400}
+  ./check.sh $p quick 2>&1 | grep -E "\[(VIOLATION|undecided|floor)\]|^VIOLATION|unresolved" | cut -c1-${CUT:-400}
 done
 git -C /repo checkout -- .
